@@ -136,3 +136,28 @@ ENGINES += [
     {"name": "rtkani", "path": "/verif/rtkani", "serves_properties": ["C18", "C19", "C20", "C21", "C24"],
      "kind_free_text": "out-of-tree Kani harness crate (path dependency on crates/guest-rust with the verif cfg) + Python runner (slots, memory caps, cover/unwinding parsing, concrete playback)"},
 ]
+
+_RUSTGEN_NOTE = ("Trusted: Kani 0.68 / CBMC 6.11 with --memory-leak-check, rustgen/spec.py + hgen.py (independently written canonical-ABI reference at pointer width 8), "
+                 "the recording Guest implementation; String::from_utf8 is replaced by the harness's own validator (core's costs > 4 min of SAT). Explicitly bounded form of the "
+                 "property: export direction for value types (import direction only for resource calls, through the guarded generator hook e7439bb), pointer width 8 (the host's; "
+                 "the wasm32 layout of the same instruction stream is C01's), no external component-model host, worlds ENUMERATED (37 quick / 58 thorough type classes x option cells), "
+                 "lists <= 2 (3), strings <= 2 bytes, maps only BTreeMap with concrete 0/1 entries, list<string> and async outside. Results are memoised per (generated bindings text, harness "
+                 "text, runtime source hash): a cache hit is reported in evidence (cache_hits) and only happens when CBMC's input is byte-identical.")
+CLAIMED.update({
+    "C05": dict(engine="rustgen", level="model_checking", ref="DESIGN §1/E5, §4/C05, §8.8", note=_RUSTGEN_NOTE,
+                technique="Kani (CBMC) over the real generated Rust bindings with symbolic core values / argument memory and a recording Guest, against a reference canonical-ABI decode/encode",
+                text="Per type class and option cell: reference-decode of arbitrary core arguments/argument memory equals what Guest::f received, and the flat result / return-area bytes equal "
+                     "the reference encoding of an arbitrary returned value. Weaker than C05 as written (see note): it is the export glue at pointer width 8 judged by my reference, not a whole component judged by a host."),
+    "C06": dict(engine="rustgen", level="model_checking", ref="DESIGN §1/E5, §4/C06, §8.8", note=_RUSTGEN_NOTE + " Dealloc alignment is not observable in CBMC.",
+                technique="Kani (CBMC) memory model (double free, use after free, out of bounds, invalid dealloc) + --memory-leak-check over the generated export glue and post-return",
+                text="Same harnesses with the allocator as oracle: argument buffers handed in by the 'host' are freed or owned by the received value, buffers created by lowering the result are gone "
+                     "after __post_return, no double free / out-of-bounds access, indirect parameter area freed once."),
+    "C07": dict(engine="rustgen", level="model_checking", ref="DESIGN §1/E5, §4/C07, §8.8", note=_RUSTGEN_NOTE,
+                technique="Kani (CBMC) over the generated Resource<T>/handle wrappers and exported-resource glue with symbolic operation sequences (<= 4) and per-handle drop counters",
+                text="A handle is dropped at most once, never after take_handle/into_handle, exactly once if never taken; borrows are never dropped by the guest; exported resource: the user value is "
+                     "reached through the rep and destroyed exactly once when the dtor export runs; import calls transfer own handles exactly once."),
+})
+ENGINES += [
+    {"name": "rustgen", "path": "/verif/rustgen", "serves_properties": ["C05", "C06", "C07"],
+     "kind_free_text": "Python: corpus, reference ABI (width 8), Kani harness generator over bindings produced by the real Rust backend (exprsmt driver), runner with slots/caps/cache, concrete playback"},
+]
